@@ -1,0 +1,22 @@
+//go:build verif
+
+package endpoint
+
+import (
+	"context"
+	"net"
+	"net/http"
+)
+
+// VerifHTTPDial, when set by a simulation harness (build tag "verif"), replaces
+// the dialer of every webhook HTTP client.
+var VerifHTTPDial func(ctx context.Context, network, addr string) (net.Conn, error)
+
+func verifHTTPClient(c *http.Client) {
+	if VerifHTTPDial == nil {
+		return
+	}
+	if t, ok := c.Transport.(*http.Transport); ok && t.DialContext == nil {
+		t.DialContext = VerifHTTPDial
+	}
+}
